@@ -174,7 +174,7 @@ pub const OPERATORS: &[&str] = &[
     "root-missing", "root-multiple", "text-after-root", "text-before-root", "xmldecl-misplaced", "xmldecl-dup", "xmldecl-version", "xmldecl-order",
     "xmldecl-noversion", "pi-reserved", "pi-reserved-case", "doctype-dup", "doctype-after-root", "pi-unclosed", "comment-unclosed", "cdata-unclosed",
     "cdata-outside-root", "attr-entity-lt", "entity-recursive", "entity-unparsed-ref", "entity-external-attr", "empty-document", "etag-attr",
-    "entity-value-lt-ref", "entity-amp-ref", "entity-amp-attr", "entity-charref-illegal", "entity-hidden-recursion", "stag-unclosed", "attr-value-unquoted-end", "doctype-noname", "name-empty",
+    "entity-value-lt-ref", "entity-amp-ref", "entity-amp-attr", "entity-charref-illegal", "entity-hidden-recursion", "entity-dup-first-binds", "attr-dup-lookalike", "stag-unclosed", "attr-value-unquoted-end", "doctype-noname", "name-empty",
 ];
 
 fn find_kind(toks: &[Tok], k: TK, r: &mut Rng) -> Option<usize> {
@@ -281,6 +281,10 @@ pub fn apply_operator(op: &str, toks: &[Tok], r: &mut Rng) -> Option<String> {
         "entity-amp-attr" => { let i = find_kind(&t, TK::AttrValue, r)?; let q = t[i].s.chars().next().unwrap(); t[i].s = format!("{}&zaa;{}", q, q); return Some(with_decl(&t, r.pick_s(&["<!ENTITY zaa \"a&#38;b\">", "<!ENTITY zaa \"&#38;#1;\">", "<!ENTITY zaa \"&#x26;\">"]))); }
         "entity-charref-illegal" => { let i = content_site(&t, r)?; t.insert(i, tok(TK::EntRef, "&zci;")); return Some(with_decl(&t, r.pick_s(&["<!ENTITY zci \"a&#38;#23;\">", "<!ENTITY zci \"&#38;#x0;\">", "<!ENTITY zci \"&#38;#xFFFE;\">", "<!ENTITY zci \"&#38;#xD800;\">", "<!ENTITY zci \"&#38;#x110000;\">"]))); }
         "entity-hidden-recursion" => { let i = content_site(&t, r)?; t.insert(i, tok(TK::EntRef, "&zh1;")); return Some(with_decl(&t, r.pick_s(&["<!ENTITY zh1 \"&#38;zh1;\">", "<!ENTITY zh1 \"&zh2;\"><!ENTITY zh2 \"x&#38;zh1;\">", "<!ENTITY zh1 \"&#x26;zh2;\"><!ENTITY zh2 \"&#38;zh1;\">"]))); }
+        // the first declaration of an entity binds (4.2): a harmless later one must not hide the faulty first one
+        "entity-dup-first-binds" => { let i = content_site(&t, r)?; t.insert(i, tok(TK::EntRef, "&zdd;")); return Some(with_decl(&t, r.pick_s(&["<!ENTITY zdd \"a&#38;b\"><!ENTITY zdd \"fine\">", "<!ENTITY zdd \"&zdd;\"><!ENTITY zdd \"fine\">", "<!ENTITY zdd SYSTEM \"u.bin\" NDATA zn><!NOTATION zn SYSTEM \"n\"><!ENTITY zdd \"fine\">", "<!ENTITY zdd \"&#38;#1;\"><!ENTITY zdd \"fine\"><!ENTITY zdd \"x\">"]))); }
+        // a repeated attribute name with an attribute of the same local part (other prefix, or a declaration of that prefix) in between
+        "attr-dup-lookalike" => { let i = find_kind(&t, TK::STagOpen, r)?; let v = r.pick_s(&[" zp:zq='1' zq='2' zp:zq='3' xmlns:zp='urn:z'", " zq='1' zp:zq='2' zq='3' xmlns:zp='urn:z'", " xmlns:zq='urn:u' zq='1' xmlns:zq='urn:v'", " zq='1' xmlns:zq='urn:u' zr='2' zq='3'", " xmlns:zp='urn:z' zp:zq='1' zr:zq='2' zp:zq='3' xmlns:zr='urn:y'"]); t[i].s = format!("{}{}", t[i].s, v); }
         "stag-unclosed" => { let i = find_kind(&t, TK::STagClose, r)?; t[i].s = String::new(); if i + 1 < t.len() && t[i + 1].k == TK::Text { t[i + 1].s = format!("<b/>{}", t[i + 1].s.replace('>', "")); } else { t.insert(i + 1, tok(TK::Text, "<b/>")); } }
         "attr-value-unquoted-end" => { let i = find_kind(&t, TK::AttrValue, r)?; let q = t[i].s.chars().next().unwrap(); let other = if q == '"' { '\'' } else { '"' }; t[i].s = format!("{}v{}", q, other); for x in t.iter_mut().skip(i + 1) { x.s = x.s.replace(q, ""); } }
         "elem-name-colon2" => { let _ = root_content; return Some(r.pick_s(&["<a:b:c xmlns:a=\"u\"/>", "<:a/>", "<a:/>", "<a xmlns:p=\"u\" p::x=\"1\"/>", "<a :x=\"1\"/>"]).to_string()); }
